@@ -8,8 +8,10 @@ EXTENDS MonCommon
 
 MonInit == [ sid |-> "", sent |-> <<>>, reads |-> <<>>, metaSent |-> <<>>, metaReads |-> <<>>, metaAcks |-> <<>>,
              faults |-> 0, readers |-> {}, sendFail |-> 0, quiesced |-> FALSE, srcs |-> {}, metaWaits |-> <<>>, lastMetaI |-> 0,
-             readWaits |-> <<>>, lastSendI |-> 0 ]
-MonReset(e) == MonInit
+             readWaits |-> <<>>, lastSendI |-> 0, allow |-> 0 ]
+\* (scenario parameter p.allowFaults = number of scripted link failures the scenario contains on purpose: everything sent before a failure
+\* is read before it, so the sequence judged is still "what the broker sent" - now across a resume)
+MonReset(e) == IF "p" \in DOMAIN e /\ "allowFaults" \in DOMAIN e.p THEN [MonInit EXCEPT !.allow = e.p.allowFaults] ELSE MonInit
 
 Norm(gs) == [k \in 1..Len(gs) |-> <<gs[k].id, gs[k].pts>>]
 
@@ -36,7 +38,7 @@ MonStep(m, e) ==
       [] e.ev = "Quiesced" -> [m EXCEPT !.quiesced = TRUE]
       [] OTHER -> m
 
-Premise(m) == m.sid # "" /\ m.faults = 0 /\ m.sendFail = 0
+Premise(m) == m.sid # "" /\ m.faults <= m.allow /\ m.sendFail = 0
 \* what the k-th read must be, given the k-th chunk sent
 Expect(c) == IF c.bogus THEN [ok |-> FALSE] ELSE [ok |-> TRUE, seq |-> c.seq, up |-> c.up, g |-> c.g]
 Matches(r, c) == IF c.bogus THEN ~r.ok
